@@ -108,11 +108,11 @@ Section Shift.
   Qed.
 
   Lemma equiv_nested rd : equiv rd ->
-    forall top h text lineno k inline ho,
-      den_nested env orc rd top h text (lineno + k) inline ho
-      = map_res (shift_dres k) (den_nested env orc rd top h text lineno inline ho).
+    forall top ho0 h text lineno k inline ho,
+      den_nested env orc rd top ho0 h text (lineno + k) inline ho
+      = map_res (shift_dres k) (den_nested env orc rd top ho0 h text lineno inline ho).
   Proof.
-    intros Heq top h text lineno k inline ho. unfold den_nested.
+    intros Heq top ho0 h text lineno k inline ho. unfold den_nested.
     assert (Hm : forallb mapped (fst (if inline then o_PI orc (s_env h) text
                                       else o_P orc (s_env h) (text ++ nl))) = true).
     { destruct inline; [apply (so_PI_mapped O_shift) | apply (so_P_mapped O_shift)]. }
@@ -130,32 +130,32 @@ Section Shift.
     match o with DNodes ns => DNodes (map (shift_node k) ns) | DError l m => DError l m end.
 
   Lemma equiv_adm rd : equiv rd ->
-    forall titled name args attrs content off pos k h,
-      admonition_run shared (den_mock_state env orc rd (pos + k)) titled name args attrs content off
+    forall ho titled name args attrs content off pos k h,
+      admonition_run shared (den_mock_state env orc rd ho (pos + k)) titled name args attrs content off
                      (pos + k) h
       = map_res (fun x => (shift_dout k (fst x), snd x))
-                (admonition_run shared (den_mock_state env orc rd pos) titled name args attrs content
+                (admonition_run shared (den_mock_state env orc rd ho pos) titled name args attrs content
                                 off pos h).
   Proof.
-    intros Heq titled name args attrs content off pos k h. unfold admonition_run.
+    intros Heq ho titled name args attrs content off pos k h. unfold admonition_run.
     destruct (is_nil content); [reflexivity|].
     assert (Hbody : forall h1 n1,
-      (do r2 <- cb_nested_parse (den_mock_state env orc rd (pos + k)) content off
+      (do r2 <- cb_nested_parse (den_mock_state env orc rd ho (pos + k)) content off
                   (shift_node k n1) h1; Ok (DNodes [fst r2], snd r2))
       = map_res (fun x => (shift_dout k (fst x), snd x))
-          (do r2 <- cb_nested_parse (den_mock_state env orc rd pos) content off n1 h1;
+          (do r2 <- cb_nested_parse (den_mock_state env orc rd ho pos) content off n1 h1;
            Ok (DNodes [fst r2], snd r2))).
     { intros h1 n1. cbn [cb_nested_parse den_mock_state].
       replace (pos + k + N.of_nat off) with (pos + N.of_nat off + k) by lia.
       rewrite (equiv_nested rd Heq).
-      destruct (den_nested env orc rd false h1 (join nl content) (pos + N.of_nat off) false 0)
+      destruct (den_nested env orc rd false ho h1 (join nl content) (pos + N.of_nat off) false 0)
         as [[[ns h'] b]|e]; [|reflexivity].
       cbn [map_res bind shift_dres fst snd shift_dout map].
       rewrite shift_node_add_kids. reflexivity. }
     destruct titled.
     - destruct args as [|a args']; [reflexivity|].
       cbn [cb_inline_text den_mock_state]. rewrite (equiv_nested rd Heq).
-      destruct (den_nested env orc rd false h a pos true 0) as [[[tn h1] tb]|e]; [|reflexivity].
+      destruct (den_nested env orc rd false ho h a pos true 0) as [[[tn h1] tb]|e]; [|reflexivity].
       cbn [map_res bind shift_dres fst snd].
       specialize (Hbody h1 (add_kids (Node NAdm (name ++ attrs) (Some pos) []) [Node NTitle a None tn])).
       cbn [add_kids shift_node app map] in Hbody. cbn [add_kids app]. exact Hbody.
@@ -173,18 +173,18 @@ Section Shift.
   Qed.
 
   Lemma equiv_directive rd : equiv rd ->
-    forall top h name first content pos pre k,
-      den_directive env orc rd top h name first content (pos + k) pre
-      = map_res (shift_dres k) (den_directive env orc rd top h name first content pos pre).
+    forall top ho h name first content pos pre k,
+      den_directive env orc rd top ho h name first content (pos + k) pre
+      = map_res (shift_dres k) (den_directive env orc rd top ho h name first content pos pre).
   Proof.
-    intros Heq top h name first content pos pre k. unfold den_directive.
+    intros Heq top ho h name first content pos pre k. unfold den_directive.
     destruct (o_dir_lookup orc name) as [[kind cls]|] eqn:Ed; [|reflexivity].
     destruct (parse_directive_text cls first content) as [p|e]; [|reflexivity].
     destruct (o_opt_validate orc name (p_optblock p)) as [attrs warns].
     rewrite shift_warnings.
     destruct kind as [titled| |].
     - rewrite !O_adm. rewrite (equiv_adm rd Heq).
-      destruct (admonition_run shared (den_mock_state env orc rd pos) titled name (p_args p) attrs
+      destruct (admonition_run shared (den_mock_state env orc rd ho pos) titled name (p_args p) attrs
                   (p_body p) (p_off p - pre)%nat pos h) as [[out h']|e]; [|reflexivity].
       cbn [map_res bind fst snd]. destruct out as [ns|l m]; cbn [shift_dout map_res];
         unfold shift_dres; cbn [fst snd]; rewrite !map_app; reflexivity.
@@ -215,9 +215,10 @@ Section Shift.
       unfold note_explicit_target. destruct (mem_strs label (s_names h)); reflexivity.
     - apply andb_true_iff in Hm as [Hmp Hks]. destruct mp as [[a b]|]; [|discriminate].
       cbn [shift_map token_line_d line_of].
-      destruct (mem_strs label (s_names h)); [reflexivity|].
-      unfold den_children. rewrite (equiv_fold rd Heq false ho k ks _ Hks).
-      destruct (den_fold (rd false ho) (add_name label h) ks) as [[[ns h'] bb]|e]; reflexivity.
+      destruct (mem_strs label (s_footdefs h)); [reflexivity|].
+      unfold note_explicit_target. destruct (mem_strs label (s_names (add_footdef label h)));
+        unfold den_children; rewrite (equiv_fold rd Heq false ho k ks _ Hks);
+        destruct (den_fold (rd false ho) _ ks) as [[[ns h'] bb]|e]; reflexivity.
     - rewrite line_of_shift. destruct (line_of mp); reflexivity.
     - destruct mp as [[a b]|]; [|discriminate].
       unfold den_fence. cbn [shift_map token_line token_line_d line_of bind].
@@ -228,13 +229,13 @@ Section Shift.
         * apply (equiv_directive rd Heq).
       + destruct colon; [|reflexivity].
         rewrite (equiv_nested rd Heq).
-        destruct (den_nested env orc rd false h content a false 0) as [[[ns h'] bb]|e]; reflexivity.
+        destruct (den_nested env orc rd false ho h content a false 0) as [[[ns h'] bb]|e]; reflexivity.
     - unfold den_substitution. destruct mp as [[a b]|]; [|reflexivity].
       cbn [shift_map token_line bind].
       destruct (o_jinja orc key) as [rendered|]; [|reflexivity].
       destruct (existsb (fun r => mem_str r (s_subrefs h)) (o_sub_names orc key)); [reflexivity|].
       rewrite (equiv_nested rd Heq).
-      destruct (den_nested env orc rd top _ rendered a _ 0) as [[[ns h'] bb]|e]; reflexivity.
+      destruct (den_nested env orc rd top ho _ rendered a _ 0) as [[[ns h'] bb]|e]; reflexivity.
     - rewrite line_of_shift. destruct (line_of mp); reflexivity.
   Qed.
 
